@@ -1,4 +1,6 @@
-/-! Model of codebasin.preprocessor.Lexer (ASCII inputs only). -/
+import CbiVerif.Generated.Tables
+/-! Model of codebasin.preprocessor.Lexer (ASCII inputs only).  The operator, punctuator and exponent lists are the
+ones regenerated from the code on every run (`Generated/Tables.lean`). -/
 namespace CbiVerif.PP
 
 inductive TKind | num | chr | str | ident | op | punct | unknown
@@ -24,10 +26,9 @@ def isAlnum (c : Char) : Bool := c.isAlphanum
 /-- str.isprintable for ASCII -/
 def isPrintable (c : Char) : Bool := c.toNat ≥ 32 && c.toNat < 127
 
-def operators : List String :=
-  ["||", "&&", ">>", "<<", "!=", ">=", "<=", "==", "##", "-", "+", "!", "*", "/", "|", "&", "^", "<", ">", "?", ":", "~", "#", "=", "%"]
-def punctuators : List String := ["(", ")", "{", "}", "[", "]", ",", ".", ";", "'", "\"", "\\"]
-def exponents : List String := ["e+", "e-", "E+", "E-", "p+", "p-", "P+", "P-"]
+def operators : List String := CbiVerif.Gen.lexOperators
+def punctuators : List String := CbiVerif.Gen.lexPunctuators
+def exponents : List String := CbiVerif.Gen.lexExponents
 
 def startsWithL (s : List Char) (p : List Char) : Bool := p.isPrefixOf s
 
